@@ -1,6 +1,7 @@
 import HkModel.Drive.Json
 import HkModel.Model.Queue
 import HkModel.Model.Counters
+import HkModel.Model.MemOrder
 import HkModel.Obs.Queue
 /-! Line-protocol driver for the queue correspondence (modes `queue`). -/
 namespace Hk.DriveQueue
@@ -117,6 +118,8 @@ structure DState where
       an operator since — a history-level reading of "not offered before its next_run_at", independent of what the store
       wrote into its own `next` column -/
   sched : List (String × Int) := []
+  /-- memory backend: the model's copy of the store's scan list (`Model/MemOrder.orderStep`), none = not tracked -/
+  order : Option (List String) := none
   trace : Nat := 0
   stepNo : Nat := 0
   steps : Nat := 0
@@ -167,7 +170,7 @@ def processLine (ds : DState) (line : String) : DState × List String :=
           (if k.dlqDepth != c.dlqDepth then ["dlq_retention.max_depth"] else [])
         if bad.isEmpty then [] else
           ["C02", "C12"].map (fun p => s!"PROP {p} trace={nat j "trace"} step=0 configured-value-not-in-force {bad} stated={repr c} compiled={repr k}")
-      ({ ds with cfg := c, q := { msgs := init }, prev := init, hist := {}, sched := [],
+      ({ ds with cfg := c, q := { msgs := init }, prev := init, hist := {}, sched := [], order := if init.isEmpty then some [] else none,
                  trace := nat j "trace", stepNo := 0, propFails := ds.propFails + wiring.length }, wiring)
     | "step" =>
       let n := ds.stepNo
@@ -213,12 +216,48 @@ def processLine (ds : DState) (line : String) : DState × List String :=
           let sts := after.map (fun (m : Msg) => m.st.toString)
           let want : List Int := [(Counters.countsOf sts "queued" : Int), (Counters.countsOf sts "leased" : Int)]
           if c == want then [] else [s!"sqlite-depth-counters-differ-from-row-counts counters={c} rows={want}"]
-        let propMsgs := propMsgs0 ++ early.flatMap (fun _ => ["C03", "C05"]) ++ drift.flatMap (fun _ => ["C02", "C12"])
+        -- memory: the scan list. (a) on the implementation's own record: every queued message must be on it, or no dequeue
+        -- will ever find it (a dead / canceled message that is missing is a divergence of the list, below, until it is requeued) (`Props/MemOrder.lean: cover_reachable`); (b) against the model: the list is what `orderStep`
+        -- computes (appends, compaction thresholds), and a dequeue picks what `scan` picks on the list before the step
+        let implOrd : Option (List String) :=
+          if !(has j "ord") || (obj j "ord").isNull then none else some ((arr j "ord").map (fun (x : Json) => x.getStr?.toOption.getD ""))
+        let hidden : List String := match implOrd with
+          | some o => (after.filter (fun (m : Msg) => m.st == .queued && !o.contains m.id)).map (fun (m : Msg) => s!"stored-message-missing-from-the-memory-store's-scan-list id={m.id} state={m.st.toString}")
+          | none => []
+        let modelOrd : Option (List String) := match ds.order, implOrd with
+          | some o, some _ => some (MemOrder.orderStep o (MemOrder.addedBy op resp) (MemOrder.compactsAfter op) (after.map (·.id)))
+          | _, _ => none
+        let scanDiv : List String := match ds.order, implOrd, op with
+          | some o, some _, Op.dequeue route target batch _ =>
+            match (prune ds.cfg now ds.q gone).map (sweep ds.cfg now) with
+            | some q1 =>
+              let want := MemOrder.scan (MemOrder.readyId now route target q1.msgs) (effBatch batch) o []
+              if want == picks.map (·.1) then [] else [s!"DIVERGE {tag} field=scan-order model={want} impl={picks.map (·.1)}"]
+            | none => []
+          | _, _, _ => []
+        let ordDiv : List String := match modelOrd, implOrd with
+          | some mo, some io => if mo == io then [] else
+              [s!"DIVERGE {tag} field=order-list op={opKind op} model-len={mo.length} impl-len={io.length} first-diff={(mo.zip io).findIdx? (fun p => p.1 != p.2)}"]
+          | _, _ => []
+        -- a restart is none of the events that may end a lease (ack, nack, expiry, operator mutation): a lease that is live
+        -- when the process restarts is the same lease afterwards (C03; the consumer holding it may be another process)
+        let restartBreaks : List String := match op with
+          | Op.restart => ds.prev.filterMap (fun (m : Msg) =>
+              if m.st == .leased && decide (m.luntil > now) then
+                match after.find? (fun (x : Msg) => x.id == m.id) with
+                | some m' => if m'.st == .leased && m'.lease == m.lease && m'.luntil == m.luntil then none
+                             else some s!"restart-ended-a-live-lease id={m.id} lease-had={m.luntil - now}ns-left now-{m'.st.toString}"
+                | none => some s!"restart-lost-a-leased-message id={m.id}"
+              else none)
+          | _ => []
+        let propMsgs := propMsgs0 ++ early.flatMap (fun _ => ["C03", "C05"]) ++ restartBreaks.map (fun _ => "C03") ++ drift.flatMap (fun _ => ["C02", "C12"]) ++ hidden.map (fun _ => "C05")
         let sched' := (sched1 ++ asked).filter (fun p => after.any (·.id == p.1))
         let propOut := propMsgs0.map (fun m => s!"PROP {m} {tag}") ++
           early.flatMap (fun e => [s!"PROP C03 {tag} {e}", s!"PROP C05 {tag} {e}"]) ++
-          drift.flatMap (fun e => [s!"PROP C02 {tag} {e}", s!"PROP C12 {tag} {e}"])
+          drift.flatMap (fun e => [s!"PROP C02 {tag} {e}", s!"PROP C12 {tag} {e}"]) ++
+          hidden.map (fun e => s!"PROP C05 {tag} {e}") ++ restartBreaks.map (fun e => s!"PROP C03 {tag} {e}") ++ scanDiv ++ ordDiv
         let ds := { ds with stepNo := n + 1, steps := ds.steps + 1, hist := hist', sched := sched', propFails := ds.propFails + propMsgs.length,
+                            order := implOrd, diverged := ds.diverged + scanDiv.length + ordDiv.length,
                             kinds := bump (opKind op ++ "/" ++ respKind resp) ds.kinds }
         match step ds.cfg now ds.q op ch with
         | none =>
